@@ -67,6 +67,8 @@ if LOGDIR and not getattr(_dq, "_verif_hooked", False):
         except Exception:  # noqa: BLE001 - not one of ours: behave exactly like the original
             return _orig(circuit, kwargs)
         run = cur["run"]
+        if cur.get("wait"):
+            T.WAIT_S = float(cur["wait"])       # large batches: an order that is infeasible in the real pool must not stall the run
         rng = kwargs.get("rng")
         seed = int(rng) if isinstance(rng, (int, np.integer)) else -1
         T.log_event(LOGDIR, {"run": run, "e": "s", "i": i, "t": time.monotonic_ns(), "seed": seed})
@@ -96,12 +98,37 @@ def batch(n, variant):
     return all_[:n]
 
 
+def batch_mask(mask, variant):
+    """Batch with the composition chosen by TLC (ExecutorMix.mask): position i holds a finite-shot circuit iff mask[i] = 1,
+    an analytic one otherwise.  Circuits are pairwise different (angle depends on the position); every finite-shot circuit
+    has more than 20 bits of sampling entropy (uniform wires 1, 2), so that two executions that do not share their seed cannot agree."""
+    mk = qp.tape.QuantumScript
+    out = []
+    for i, b in enumerate(mask):
+        a = 0.1 * variant + 0.07 * (i + 1)
+        pre = [qp.H(0), qp.H(1), qp.H(2), qp.RY(a, 0), qp.CNOT([0, 1])]
+        if b:
+            out.append([
+                lambda: mk(pre, [qp.sample(wires=[0, 1, 2])], shots=24),
+                lambda: mk(pre + [qp.RX(0.3, 2)], [qp.expval(qp.Z(0) @ qp.Z(2)), qp.counts(wires=[0, 1, 2])], shots=40),
+                lambda: mk(pre + [qp.RZ(0.2, 1)], [qp.sample(qp.Z(1)), qp.probs(wires=[0, 2])], shots=60),
+                lambda: mk(pre + [qp.RY(0.4, 2)], [qp.expval(qp.Z(0)), qp.expval(qp.Z(1)), qp.var(qp.Z(2))], shots=[50, 70]),
+            ][i % 4]())
+        else:
+            out.append([
+                lambda: mk(pre, [qp.expval(qp.Z(0)), qp.probs(wires=[0, 1])]),
+                lambda: mk(pre + [qp.RX(0.3, 2)], [qp.expval(qp.Y(0)), qp.var(qp.Z(1))]),
+                lambda: mk(pre + [qp.RZ(0.2, 1)], [qp.probs(wires=[0, 1, 2])]),
+            ][i % 3]())
+    return out
+
+
 def session(s, out):
-    """One device: s = {sid, backend, workers, seed, n, variant, rounds: [completion order per execute]}."""
+    """One device: s = {sid, backend, workers, seed, n, variant, rounds: [completion order per execute]} and optionally
+    masks: [composition of the batch per execute] (default: the fixed batch above), wait: turnstile time-out in seconds."""
     from pennylane.concurrency.executors import get_executor
     from pennylane.devices import ExecutionConfig
     n = s["n"]
-    tapes = batch(n, s["variant"])
     ref_dev = qp.device("default.qubit", seed=s["seed"])
     dev = qp.device("default.qubit", seed=s["seed"], max_workers=s["workers"])
     for r, corder in enumerate(s["rounds"], start=1):
@@ -111,6 +138,7 @@ def session(s, out):
             pred[b] = a
         rec = {"sid": s["sid"], "round": r, "run": run, "exc": "", "digests": [], "flags": True, "shapes_ok": True, "analytic_ok": True}
         try:
+            tapes = batch_mask(s["masks"][r - 1], s["variant"]) if s.get("masks") else batch(n, s["variant"])
             cfg = ExecutionConfig(executor_backend=get_executor(s["backend"])) if s["backend"] else ExecutionConfig()
             cfg = dev.setup_execution_config(cfg)
             prog = dev.preprocess_transforms(cfg)
@@ -119,7 +147,7 @@ def session(s, out):
                 raise RuntimeError("preprocessing changed the batch size / circuits not distinguishable")
             tmp = os.path.join(LOGDIR, "current.tmp")
             with open(tmp, "w") as f:
-                json.dump({"run": run, "w": min(s["workers"] or 1, n), "tasks": {tape_key(t): [i, pred[i]] for i, t in enumerate(tapes2, start=1)}}, f)
+                json.dump({"run": run, "w": min(s["workers"] or 1, n), "wait": s.get("wait", 0), "tasks": {tape_key(t): [i, pred[i]] for i, t in enumerate(tapes2, start=1)}}, f)
             os.replace(tmp, os.path.join(LOGDIR, "current.json"))
             t0 = time.time()
             res = post(dev.execute(tapes2, cfg))
